@@ -38,8 +38,9 @@ def determinism(seed, n=None, verbose=True):
         for i in range(n):
             plans.append((prop, eng, i))
     runs = {}
+    addrs = {}
     bad = []
-    for nworkers, hs in ((16, "0"), (4, "12345"), (16, "12345")):
+    for nworkers, hs in ((16, "0"), (4, "12345"), (16, "12345"), (5, "0")):
         with Pool(nworkers, hashseed=hs) as pool:
             jobs = [{"id": "%s/%d" % (p, i), "engine": e.NAME, "func": "execute", "doc": e.generate(p, seed, i), "wall_cap": 180} for p, e, i in plans]
             if (nworkers, hs) != (16, "0"):
@@ -52,9 +53,14 @@ def determinism(seed, n=None, verbose=True):
                 if job["id"] in runs and runs[job["id"]] != d:
                     bad.append((job["id"], "digest differs (workers=%d, PYTHONHASHSEED=%s)" % (nworkers, hs)))
                 runs.setdefault(job["id"], d)
+                # object addresses must repeat as well when PYTHONHASHSEED is the same
+                if hs == "0" and res.get("addr_digest"):
+                    if job["id"] in addrs and addrs[job["id"]] != res["addr_digest"]:
+                        bad.append((job["id"], "object addresses differ (workers=%d, PYTHONHASHSEED=%s)" % (nworkers, hs)))
+                    addrs.setdefault(job["id"], res["addr_digest"])
     for b in bad[:20]:
         print("HARNESS-ERROR nondeterminism %s: %s" % b)
-    print("determinism self-test: %d scenarios x 3 configurations, %d problems" % (len(plans), len(bad)))
+    print("determinism self-test: %d scenarios x 4 configurations (trace digests; object addresses between the two PYTHONHASHSEED=0 runs of %d scenarios), %d problems" % (len(plans), len(addrs), len(bad)))
     return 2 if bad else 0
 
 
